@@ -4,7 +4,7 @@
 import copy, ipaddress
 from .lib import core, gen, listcorr, meta
 
-EDITS = ['add_rule', 'add_policy_governed', 'add_policy_ungoverned', 'sel_spelling', 'range_split', 'cidr_halves', 'policy_split', 'policy_types']
+EDITS = ['add_rule', 'add_policy_governed', 'add_policy_ungoverned', 'sel_spelling', 'range_split', 'cidr_halves', 'policy_split', 'policy_types', 'sel_spelling', 'sel_spelling']
 
 
 def rand_rule(r, W, d):
@@ -75,7 +75,10 @@ def apply_edit(r, W, kind):
         locs = [(c, k) for p in nps for c, k in all_selectors(p) if (c[k] or {}).get('matchLabels')]
         if not locs:
             return None
-        c, k = r.choice(locs)
+        # prefer selectors that stay mixed (labels + expressions) after the rewrite, and rule-peer selectors
+        mixed = [(c, k) for c, k in locs if (len(c[k]['matchLabels']) >= 2 or c[k].get('matchExpressions')) and k != 'podSelector' or
+                 (k == 'podSelector' and 'name' not in c and len(c[k]['matchLabels']) >= 2)]
+        c, k = r.choice(mixed if mixed and r.random() < 0.85 else locs)
         s = c[k]
         key = r.choice(list(s['matchLabels']))
         v = s['matchLabels'].pop(key)
@@ -158,7 +161,7 @@ def main(tier):
         run.proof_ok = False
         run.proof_notes.append('harness verifapi does not build against this tree: ' + b['verifapi'][1][-600:])
         return run.finish()
-    n = 240 if tier == 'quick' else 6000
+    n = 300 if tier == 'quick' else 6000
     h = listcorr.Harness()
     try:
         shard, k = 120, 0
